@@ -83,6 +83,28 @@ def _impl(tier, seed, search):
                     if not ok:
                         L.fail(f'ctor-accepts:{cname}:{kind}:{"bare" if fname == "bare" else "list"}',
                                f'{cname}({fname}) with a {kind} matrix returned an object holding a non-member ({why})', inp, observed=[None if a is None else np.asarray(a).tolist() for a in X.data])
+            # the same defects as single-precision arrays (a dtype-dependent tolerance must not let them in), bare and in a list
+            for kind, Bad in defects(cname, G1):
+                B32 = Bad.astype(np.float32)
+                r32 = geom.so_residual(B32.astype(float)) if cname in ('SO2', 'SO3') else geom.se_residual(B32.astype(float))
+                if not r32 > 2e-6: continue
+                for fname, ctor in {'bare': lambda: cls(B32), 'list[good,bad]': lambda: cls([G2.astype(np.float32), B32])}.items():
+                    inp = dict(cls=cname, defect=kind, form=fname, dtype='float32', value=B32)
+                    L.count('ctor-rejects(float32)'); L.sample('ctor-rejects(float32)', inp)
+                    try: X = ctor()
+                    except Exception: continue
+                    ok, why = holds_only_members(X, cname)
+                    if not ok: L.fail(f'ctor-accepts:{cname}:{kind}:float32', f'{cname}({fname}) with a float32 {kind} matrix returned an object holding a non-member ({why})', inp)
+            # a square array of the rotation-block size given to the rigid-motion class (and the other way round) that is not in the group
+            n_ = 2 if cname in ('SO2', 'SE2') else 3
+            if cname in ('SE2', 'SE3'):
+                for kind, Bad in defects('SO2' if n_ == 2 else 'SO3', G1[:n_, :n_].copy()):
+                    inp = dict(cls=cname, defect=kind, form=f'bare {n_}x{n_}', value=Bad)
+                    L.count('ctor-rejects(block)'); L.sample('ctor-rejects(block)', inp)
+                    try: X = cls(Bad)
+                    except Exception: continue
+                    ok, why = holds_only_members(X, cname)
+                    if not ok: L.fail(f'ctor-accepts:{cname}:{kind}:block', f'{cname}({n_}x{n_} array) with a {kind} matrix returned an object holding a non-member ({why})', inp)
             # valid values in every form are accepted and stored unchanged
             for fname, ctor in {'bare': lambda: cls(G1), 'list': lambda: cls([G1, G2]), 'tuple': lambda: cls((G1, G2)), 'copy': lambda: cls(cls(G1)),
                                 'list-of-objects': lambda: cls([cls(G1), cls(G2)])}.items():
@@ -150,6 +172,11 @@ def _impl(tier, seed, search):
             for kind, Bad in defects(cname, M):
                 L.check(f'pred-rejects:{cname}', not bool(pred(Bad)), dict(cls=cname, defect=kind, M=Bad), f'membership predicate for {cname} accepts a {kind} matrix',
                         sig=f'pred-accepts-invalid:{cname}:{kind}')
+                B32 = Bad.astype(np.float32)
+                r32 = geom.so_residual(B32.astype(float)) if cname in ('SO2', 'SO3') else geom.se_residual(B32.astype(float))
+                if r32 > 2e-6:
+                    L.check(f'pred-rejects(float32):{cname}', not bool(pred(B32)), dict(cls=cname, defect=kind, dtype='float32', M=B32), f'membership predicate for {cname} accepts a float32 {kind} matrix',
+                            sig=f'pred-accepts-invalid:{cname}:{kind}:float32')
         R = inputs.so3(g)
         L.check('isR-accepts', bool(b.isR(R)), dict(R=R), 'isR rejects a rotation matrix')
         refl = R @ np.diag([1.0, 1.0, -1.0])
